@@ -375,6 +375,8 @@ class Ctx:
               "coverage": cov, "assumptions": self.assumptions, "wall_s": round(wall, 1),
               "violations": len(violations)}
         evdir = os.path.join(ROOT, "evidence")
+        if not self.pid.startswith("C"):             # extension specs (X..): not listed properties, own directory
+            evdir = os.path.join(ROOT, "evidence-ext")
         if os.environ.get("VERIF_NOEVIDENCE"):       # checking a scratch tree (seeded change): leave evidence alone
             evdir = os.path.join(self.work, "evidence")
         os.makedirs(evdir, exist_ok=True)
